@@ -8,12 +8,12 @@
 (***************************************************************************)
 EXTENDS Filter, TLC, Randomization
 
-CONSTANTS XS, YS, LabelSet, ConfSet, PtsSet, ParamSet, WideSet, MaxObjs, Sample
+CONSTANTS XS, YS, LabelSet, ConfSet, PtsSet, AttrVals, ParamSet, WideSet, MaxObjs, Sample
 
 VARIABLES objs, isGT, P, phase, out
 fvars == <<objs, isGT, P, phase, out>>
 
-ObjSpace == [x : XS, y : YS, label : LabelSet, conf : ConfSet, attr : BOOLEAN, pts : PtsSet, uuid : BOOLEAN]
+ObjSpace == [x : XS, y : YS, label : LabelSet, conf : ConfSet, attr : AttrVals, pts : PtsSet, uuid : BOOLEAN]
 
 ListSpace ==
   IF Sample = 0 THEN UNION {[1..n -> ObjSpace] : n \in 1..MaxObjs}
